@@ -56,15 +56,30 @@ Proof.
     apply Nat.eqb_eq in E2. lia.
 Qed.
 
+Lemma wf_init_fs c : wf (init_fs c).
+Proof.
+  unfold init_fs. destruct (k_partlink c); [|apply wf_fs_of_list].
+  intros n i. cbn. unfold upd. destruct (Nat.eqb n (c_part (k_cfg c))); apply wf_fs_of_list.
+Qed.
+
+Lemma content_kill_init_fs c :
+  c_dest (k_cfg c) <> c_part (k_cfg c) ->
+  content_kill (init_fs c) (c_dest (k_cfg c)) = option_map fst (assoc (c_dest (k_cfg c)) (k_init c)).
+Proof.
+  intro Hdp. rewrite <- content_kill_init. unfold init_fs. destruct (k_partlink c); [|reflexivity].
+  unfold content_kill, set_name. cbn [f_dir f_ino]. unfold upd.
+  destruct (Nat.eqb (c_dest (k_cfg c)) (c_part (k_cfg c))) eqn:E; [apply Nat.eqb_eq in E; contradiction|reflexivity].
+Qed.
+
 Lemma dest_good_model (c : c04_case) crash o w :
   c_dest (k_cfg c) <> c_part (k_cfg c) -> same_dir (c_part (k_cfg c)) = true ->
   run_model c crash = (o, w) ->
   dest_good c (content_kill (w_fs w) (c_dest (k_cfg c))) = true.
 Proof.
   intros Hdp Hpd Hr. unfold run_model in Hr.
-  assert (Hwf : wf (fs_of_list (k_init c))) by apply wf_fs_of_list.
-  assert (Holds0 : content_kill (fs_of_list (k_init c)) (c_dest (k_cfg c)) :: appear_contents (k_sched c) = olds c).
-  { unfold olds. rewrite content_kill_init. reflexivity. }
+  assert (Hwf : wf (init_fs c)) by apply wf_init_fs.
+  assert (Holds0 : content_kill (init_fs c) (c_dest (k_cfg c)) :: appear_contents (k_sched c) = olds c).
+  { unfold olds. rewrite content_kill_init_fs by exact Hdp. reflexivity. }
   unfold dest_good. rewrite <- Holds0. destruct (k_raises c) eqn:Er.
   - destruct (aborted_lemma (k_cfg c) _ _ _ _ _ o w Hdp Hpd Hwf Hr) as [H _]. exact H.
   - destruct (crash_safe_lemma (k_cfg c) _ _ _ _ _ _ o w Hdp Hpd Hwf Hr) as [H _]. exact H.
@@ -76,9 +91,7 @@ Theorem agree_implies_holds (c : c04_case) :
 Proof.
   intros Hdp Hpd Ha. unfold agree in Ha. apply andb_true_iff in Ha as [Ha Has].
   apply andb_true_iff in Ha as [Hrun Hcr].
-  assert (Hwf : wf (fs_of_list (k_init c))) by apply wf_fs_of_list.
-  assert (Holds0 : content_kill (fs_of_list (k_init c)) (c_dest (k_cfg c)) :: appear_contents (k_sched c) = olds c).
-  { unfold olds. rewrite content_kill_init. reflexivity. }
+  assert (Hwf : wf (init_fs c)) by apply wf_init_fs.
   assert (Hind : In (c_dest (k_cfg c)) (cands c)) by (unfold cands; left; reflexivity).
   assert (Hinp : In (c_part (k_cfg c)) (cands c)) by (unfold cands; right; left; reflexivity).
   unfold holds.
